@@ -112,6 +112,8 @@ impl BodyChain {
         bc
     }
 
+    pub(crate) fn derive_pub(&mut self) { self.derive() }
+
     fn derive(&mut self) {
         let mut parent = packed::Byte32::zero();
         for b in &self.chain.bodies {
